@@ -244,6 +244,7 @@ def run(prog, chk):
     else:
         chk.ok("C15.f", sc, "string mode is left only on the closing quote or the terminator", "%s:%s" % (sc.file, sc.line), "no goto out of the literal loop under an escape", evals=len(gotos))
     string_mode_automaton(chk, "C15.h", sc)
+    line_break_agreement(prog, chk, "C15.i")
 
 
 def string_mode_automaton(chk, rid, sc):
@@ -379,3 +380,42 @@ def _literal_loop(sc, start):
         if sc.dominates_pos((start, 0), (b, 0)):
             out.add(b)
     return out
+
+
+def line_break_agreement(prog, chk, rid):
+    """TBL: the bytes the tokenizer counts as a line break (sites that do `++pos.line`) are exactly the bytes at which the
+    column computation of syntaxError stops walking back"""
+    chk.rule(rid, "TBL: the set of bytes under which the tokenizer increments the line number equals the set of bytes at which syntaxError's "
+                  "column walk stops (else a reported column lies beyond the end of the reported line)", floor=1)
+    counters = set()
+    n_sites = 0
+    for name in ("readToken", "skipSpace"):
+        f = jfn(prog, J + name)
+        for i, n in enumerate(f.nodes):
+            if n["k"] == "UnaryOperator" and "++" in str(n.get("op")) and q.no_casts(f.r(n["c"][0])) == "this->pos.line":
+                n_sites += 1
+                pos = f.node_pos(i)
+                cases = [a for a in fin.dominating_atoms(f, pos) if a[0] == "case" and a[2] is not None]
+                if cases:
+                    inner = max(a[1] for a in cases)      # the innermost switch: its condition is the latest node
+                    counters.update(a[2] for a in cases if a[1] == inner)
+    se = jfn(prog, J + "syntaxError")
+    stops = set()
+    for n in se.nodes:
+        if n["k"] == "BinaryOperator" and n.get("op") in ("==", "!=") and len(n["c"]) == 2:
+            for x, y in ((n["c"][0], n["c"][1]), (n["c"][1], n["c"][0])):
+                v = fin.eval_expr(se, y, {})
+                t = se.nodes[se.strip(x)]
+                if v is not None and t["k"] in ("UnaryOperator", "ArraySubscriptExpr") and t.get("t", "").replace("const ", "") == "char":
+                    stops.add(v)
+        if n["k"] == "CaseStmt" and n.get("v") is not None:
+            stops.add(n["v"])
+    where = "%s:%s" % (se.file, se.line)
+    if not counters or not n_sites:
+        raise AnalysisBroken("no `++pos.line` under a case label found in the JSON tokenizer")
+    if counters == stops:
+        chk.ok(rid, se, "line breaks %s counted and honoured by the column walk" % sorted(counters), where, "%d counting sites, case labels vs comparison constants" % n_sites, evals=n_sites + 1)
+    else:
+        chk.bad(rid, se, "column-walk-disagrees-with-line-count", where,
+                "the tokenizer counts the bytes %s as line breaks, syntaxError's column walk stops at %s: after a line break of the other kind the "
+                "reported column is measured from an earlier line and lies beyond the end of the reported line" % (sorted(counters), sorted(stops)), evals=n_sites + 1)
